@@ -1,0 +1,22 @@
+//go:build verif
+
+// Contracts for the deductive verifier in /verif (comment-only; compiled only
+// with -tags verif).  Syntax: see /verif/DESIGN.md.
+package fs
+
+// objpath(oid) is by definition the path these two functions compute for an
+// object id (objects/<oid[0:2]>/<oid[2:4]>/<oid> under the LFS storage
+// directory).  Assumed: both compute the same path and only create
+// directories.
+//@ func (*Filesystem).ObjectPathname
+//@   assumed
+//@   props C13 C02 C01 C09 C04 C05
+//@   modifies fresh
+//@   ensures oid != EmptyObjectSHA256 ==> result == objpath(oid)
+//@   ensures oid == EmptyObjectSHA256 ==> result == devnull
+//@ func (*Filesystem).ObjectPath
+//@   assumed
+//@   props C13 C02 C01 C09 C04 C05
+//@   modifies fresh
+//@   ensures result1 == nil && oid != EmptyObjectSHA256 ==> result0 == objpath(oid)
+//@   ensures result1 == nil && oid == EmptyObjectSHA256 ==> result0 == devnull
